@@ -106,6 +106,13 @@ pub const EDGE_FENS: &[&str] = &[
     "8/5k2/8/8/8/8/2K5/4R3 b - - 101 130",
     "8/5k2/8/8/8/8/2K5/4R3 w - - 120 140",
     "4k3/8/8/8/8/8/4K3/R7 w - - 149 200",
+    // very many moves for one side (218 and more than 128 pseudo-legal), few captures
+    "R6R/3Q4/1Q4Q1/4Q3/2Q4Q/Q4Q2/pp1Q4/kBNN1KB1 w - - 0 1",
+    "3Q4/1Q4Q1/4Q3/2Q4R/Q4Q2/3Q4/1Q4Rp/1K1BBNNk w - - 0 1",
+    // terminal positions (nothing legal) with young and old clocks
+    "7k/5K2/6Q1/8/8/8/8/8 b - - 100 120",
+    "7k/5K2/6Q1/8/8/8/8/8 b - - 3 120",
+    "R5k1/5ppp/8/8/8/8/5PPP/6K1 b - - 104 60",
     // large counters
     "8/5k2/8/8/8/8/2K5/4R3 w - - 90 120",
     "r3k2r/8/8/8/8/8/8/R3K2R w KQkq - 95 80",
